@@ -192,6 +192,23 @@ static void t_fiber_mutex(void) {
   CHECK(fiber_mutex_lock(m) == FIBER_SUCCESS && m->counter == 0, "uncontended lock: counter %d", (int)m->counter);
   fiber_mutex_unlock(m);
   CHECK(m->counter == 1 && !wake_calls, "after lock/unlock: counter %d wake calls %d", (int)m->counter, wake_calls);
+  /* wide states: counter = -n is the reachable state "held, n fibers announced" (coq: mutex_counter_inv) for every
+   * n >= 0; n is chosen around the powers of two at which a narrower counter type would wrap.  Only the
+   * non-blocking operations are exercised: trylock must fail, unlock must wake exactly one waiter. */
+  {
+    static const long NS[] = {1, 2, 127, 128, 255, 256, 32767, 32768, 65534, 65535, 65536, 65537, 2147483646L};
+    for (unsigned k = 0; k < sizeof NS / sizeof NS[0] && !nfail; k++) {
+      long n = NS[k];
+      m->counter = -n;
+      CHECK(fiber_mutex_trylock(m) == FIBER_ERROR, "trylock succeeded on a mutex held with %ld announced waiters", n);
+      m->counter = -n;
+      wake_calls = 0; wake_total = 0; yields = 0;
+      fiber_mutex_unlock(m);
+      CHECK(wake_calls == 1 && wake_total == 1, "unlock of a mutex with %ld announced waiters woke %lld fiber(s) in %d call(s)",
+            n, wake_total, wake_calls);
+    }
+    m->counter = 1; wake_calls = 0; wake_total = 0; yields = 0;
+  }
   fiber_mutex_destroy(m);
   free(m);
 }
@@ -253,6 +270,21 @@ static void t_fiber_semaphore(void) {
   sem_fields(s, 0);
   CHECK(fiber_semaphore_trywait(s) == FIBER_ERROR, "trywait succeeded on a semaphore of value 0");
   fiber_semaphore_destroy(s);
+  /* wide states: "for all initial values >= 0"; values around the powers of two at which a narrower counter wraps */
+  {
+    static const int VS[] = {127, 128, 255, 256, 32767, 32768, 65535, 65536, 2147483646};
+    for (unsigned k = 0; k < sizeof VS / sizeof VS[0] && !nfail; k++) {
+      int v = VS[k];
+      memset(s, DIRTY, sizeof *s);
+      REQUIRE(fiber_semaphore_init(s, v) == FIBER_SUCCESS, "init(%d) did not return FIBER_SUCCESS", v);
+      CHECK(fiber_semaphore_getvalue(s) == v, "value %d after init(%d)", fiber_semaphore_getvalue(s), v);
+      CHECK(fiber_semaphore_trywait(s) == FIBER_SUCCESS && fiber_semaphore_getvalue(s) == v - 1,
+            "trywait on value %d: value now %d", v, fiber_semaphore_getvalue(s));
+      CHECK(fiber_semaphore_post(s) == FIBER_SUCCESS && fiber_semaphore_getvalue(s) == v && !wake_calls,
+            "post on value %d: value now %d, wake calls %d", v - 1, fiber_semaphore_getvalue(s), wake_calls);
+      fiber_semaphore_destroy(s);
+    }
+  }
   free(s);
 }
 
